@@ -45,6 +45,12 @@ type CtlCase struct {
 	// frame must reach the new set.
 	Reinstall   bool `json:"reinstall,omitempty"`
 	ReinstallAt int  `json:"reinstall_at,omitempty"`
+	// BadWriteFirst: before it reads, the application makes an invalid write
+	// request, which is refused and writes nothing (1 WriteMessage of a
+	// 126-byte ping, 2 NextWriter(pong) + 126 bytes + Close, 3 WriteMessage
+	// with an unknown type, 4 WriteControl of a 126-byte ping): a refused
+	// request leaves the connection as it was, automatic replies included.
+	BadWriteFirst int `json:"bad_write_first,omitempty"`
 }
 
 // checkReplyDeadlines: every frame the library writes on its own while the
@@ -111,6 +117,9 @@ func genCtlCase(t *rapid.T) CtlCase {
 	if rapid.IntRange(0, 2).Draw(t, "reinstall") == 0 {
 		c.Reinstall, c.ReinstallAt = true, rapid.IntRange(0, 3).Draw(t, "reinstall_at")
 	}
+	if rapid.IntRange(0, 3).Draw(t, "bad_write_first") == 0 {
+		c.BadWriteFirst = rapid.IntRange(1, 4).Draw(t, "bad_write_kind")
+	}
 	return c
 }
 
@@ -155,6 +164,26 @@ func checkC08(c CtlCase, o *Obs) error {
 		if len(model.Ctl) > 0 {
 			o.Class("tight_read_limit_with_control_frames")
 		}
+	}
+	if c.BadWriteFirst != 0 {
+		big := make([]byte, 126)
+		switch c.BadWriteFirst {
+		case 1:
+			conn.WriteMessage(websocket.PingMessage, big)
+		case 2:
+			if w, err := conn.NextWriter(websocket.PongMessage); err == nil {
+				w.Write(big)
+				w.Close()
+			}
+		case 3:
+			conn.WriteMessage(99, big[:3])
+		default:
+			conn.WriteControl(websocket.PingMessage, big, time.Time{})
+		}
+		if n := len(tr.Wrote); n != 0 {
+			return fmt.Errorf("harness: the invalid write request %d put %d bytes on the wire (C10's business)", c.BadWriteFirst, n)
+		}
+		o.Class("refused_write_request_before_reading")
 	}
 	localClose := websocket.FormatCloseMessage(1001, "bye")
 	if c.LocalClose {
